@@ -139,7 +139,8 @@ def doc_violation(values, k):
 class C04(PropCheck):
     id = 'C04'
     extractors = (break_table.generate,)
-    modules = ('WpModel.Props.C04', 'WpModel.Props.C04Trace', 'WpModel.Witness.C04')
+    modules = ('WpModel.Props.C04', 'WpModel.Props.C04Trace', 'WpModel.Witness.C04', 'WpModel.Props.C04Pm2',
+               'WpModel.Witness.C04Pm2')
     trusted_base = (
         'modelled, not verified: block_level_page_break / avoid_page_break / force_page_break as table + fold '
         '(tables regenerated from block.py by AST and by calling the real functions)',
